@@ -41,7 +41,7 @@ static const int NR = 4;
 // exactly sized heap copies, so ASan sees any read behind the NUL / guard byte
 static const unsigned char REG0[] = {97, 98, 0};
 static const unsigned char REG1[] = {32, 97, 47, 66, 32, 0};
-static const unsigned char REG2[] = {97, 98, 47, 32, 0xEE};
+static const unsigned char REG2[] = {97, 98, 47, 32, 48, 0xEE};
 static const unsigned char REG3[] = {98, 32, 97, 0};
 static const unsigned char* const REGINIT[NR] = {REG0, REG1, REG2, REG3};
 static const size_t REGSIZE[NR] = {sizeof(REG0), sizeof(REG1), sizeof(REG2), sizeof(REG3)};
